@@ -261,7 +261,7 @@ def init_scaling_contract():
 # ---- transition() of the dense exponential prior -----------------------------------------------------
 
 
-def transition_contract(kind, diffuse=0):
+def transition_contract(kind, diffuse=0, explicit_std=False):
     """kind in {'general', 'ou', 'matern'}: prior built by the real constructor (inside the trace), with the
     numerical exp_gram routine abstracted by its contract."""
 
@@ -276,12 +276,20 @@ def transition_contract(kind, diffuse=0):
             ssm = pd.state_space_model_dense()
             # q+1 coefficients in total, the last ``diffuse`` of them added as diffuse derivatives by the constructor
             tcoeffs = [jnp.zeros((d,)) + 0.1 * i for i in range(q + 1 - diffuse)]
-            kw = dict(output_scale=base, diffuse_derivatives=diffuse, is_exact=False)
+            kw = dict(output_scale=base, diffuse_derivatives=diffuse)
+            ode = pd.ode_autonomous_order_arbitrary(lambda *us: sum(W[i] @ u for i, u in enumerate(us)), num_tcoeffs_in_args=q + 1)
+            if explicit_std:  # the constructors that take the initial standard deviations explicitly
+                stds = [jnp.ones((d,)) * 0.3 for _ in tcoeffs]
+                if kind == "ou":
+                    return ssm.prior_ornstein_uhlenbeck_integrated_diffuse(lambda u: W @ u, tcoeffs, stds, **kw)
+                if kind == "matern":
+                    return ssm.prior_matern_diffuse(length, tcoeffs, stds, **kw)
+                return ssm.prior_exponential_diffuse(ode, tcoeffs, stds, **kw)
+            kw["is_exact"] = False
             if kind == "ou":
                 return ssm.prior_ornstein_uhlenbeck_integrated(lambda u: W @ u, tcoeffs, **kw)
             if kind == "matern":
                 return ssm.prior_matern(length, tcoeffs, **kw)
-            ode = pd.ode_autonomous_order_arbitrary(lambda *us: sum(W[i] @ u for i, u in enumerate(us)), num_tcoeffs_in_args=q + 1)
             return ssm.prior_exponential(ode, tcoeffs, **kw)
         finally:
             gram_util.exp_gram_cholesky = old
@@ -350,11 +358,12 @@ def transition_contract(kind, diffuse=0):
             out.append(Instance(f"{kind},q={q},d={d},diffuse={diffuse}", make, positive=lambda a, k: [a[0], a[1], a[2], a[4]], names=lambda a, k: {id(a[0]): "h", id(a[1]): "sigma", id(a[2]): "base", id(a[3]): "W", id(a[4]): "ell"}))
         return out
 
-    return Contract(name=f"{DM}:DenseExponential.transition[{kind},diffuse={diffuse}]", module=DM, qualname="DenseExponential.transition", wrap=wrap,
+    return Contract(name=f"{DM}:DenseExponential.transition[{kind},diffuse={diffuse}{',explicit_std' if explicit_std else ''}]", module=DM, qualname="DenseExponential.transition", wrap=wrap,
                     requires=requires, ensures=ensures, instances=instances,
                     doc="after removing the preconditioner: (e^{hA}, 0, sigma^2 int_0^h e^{sA} B B^T e^{sA^T} ds) with A the documented companion drift and B = e_q (x) diag(base); prior built by the real constructor")
 
 
 def contracts():
     return [double_contract(), loop_contract(), init_scaling_contract(), transition_contract("general"), transition_contract("ou"), transition_contract("matern"),
-            transition_contract("matern", diffuse=1), transition_contract("ou", diffuse=1), transition_contract("general", diffuse=1)]
+            transition_contract("matern", diffuse=1), transition_contract("ou", diffuse=1), transition_contract("general", diffuse=1),
+            transition_contract("matern", diffuse=1, explicit_std=True), transition_contract("ou", explicit_std=True), transition_contract("general", explicit_std=True)]
